@@ -106,6 +106,19 @@ pub fn replay(ctx: &Ctx, path: &str) -> i32 {
             }
             other => Some(format!("run ended in {}", other.describe())),
         }
+    } else if let (Some(src), Some(file), Some(contents)) = (case.get("source").and_then(|s| s.as_str()), case.get("file").and_then(|s| s.as_str()), case.get("file_contents").and_then(|s| s.as_str())) {
+        // through the command-line host (C11 level 6)
+        let dir = crate::cli::scratch_dir(ctx, "replay");
+        let _ = std::fs::write(dir.join(file), contents.as_bytes());
+        let _ = std::fs::write(dir.join("probe.yl"), src);
+        let r = crate::cli::run(ctx, &dir, &["probe.yl"], None);
+        println!("yarel-cli printed {:?}, stderr {:?}, exit {:?}", r.stdout, r.stderr, r.code);
+        let expected = "true\ntrue\nhit\ntrue\n1\n5\ntrue\nfalse\ntrue\n";
+        if r.stdout != expected || r.code != Some(0) {
+            Some(format!("expected {:?} and exit 0", expected))
+        } else {
+            None
+        }
     } else if let Some(src) = case.get("source").and_then(|s| s.as_str()) {
         // compile-level artefacts (C03 / C04)
         let ops = match runner.call(&mut Request { op: "opcodes".into(), ..Default::default() }) {
